@@ -35,9 +35,14 @@ RAW_FALLBACK = ("awkward_ListArray_getitem_next_range", "awkward_ListArray_getit
 @findings.predicate("c13_case")
 def _c13_case(v, params):
     """Narrowing of C13 known findings: the failure class is one of `failure_in`, and/or the failing input's array
-    argument `arg` holds a value of class `has` (negative / nonzero / zero)."""
+    argument `arg` holds a value of class `has` (negative / nonzero / zero / nan), and/or its scalar argument `scalar` lies
+    in [min, max]."""
     if "failure_in" in params and v.get("failure") not in params["failure_in"]:
         return False
+    if "scalar" in params:
+        x = ((v.get("case") or {}).get("args") or {}).get(params["scalar"])
+        if not isinstance(x, int) or x < params.get("min", x) or x > params.get("max", x):
+            return False
     if "arg" in params:
         case = v.get("case") or {}
         a = (case.get("args") or case.get("input") or {}).get(params["arg"])
@@ -47,7 +52,8 @@ def _c13_case(v, params):
             vals = [x for payload in a.values() if isinstance(payload, list) for x in payload]
         else:
             return False
-        test = {"negative": lambda x: x < 0, "nonzero": lambda x: x != 0, "zero": lambda x: x == 0}[params.get("has", "nonzero")]
+        test = {"negative": lambda x: x < 0, "nonzero": lambda x: x != 0, "zero": lambda x: x == 0,
+                "nan": lambda x: x != x}[params.get("has", "nonzero")]
         if not any(test(x) for x in vals):
             return False
     return True
@@ -72,16 +78,21 @@ def klib():
 class Domains(object):
     """Per specialisation: one domain function per array argument."""
 
-    def __init__(self, spec, tier, relax=(), inout=()):
+    def __init__(self, spec, tier, relax=(), inout=(), opts=None):
         self.static = {}
         self.fn = {}
         self.relax = relax
         self.inout = inout
+        # harness-defined kernels that dereference their data at every offset do without the `huge` members: each would
+        # only produce candidates outside the contract
+        self.huge = not (opts and opts.get("huge") is False)
         for a in spec["args"]:
             if a["depth"] == 0 or (a["dir"] == "out" and a["name"] not in inout):
                 continue
-            self.static[a["name"]] = ks.static_domain(a, tier, relax)
+            self.static[a["name"]] = ks.static_domain(a, tier, relax, opts)
             kind = a["kind"]
+            if not self.huge and kind in ("offsets", "starts", "stops"):
+                self.static[a["name"]] = [m for m in self.static[a["name"]] if m[0] < ks.HUGE64]
             if kind == "offsets":
                 self.fn[a["name"]] = self._offsets(a)
             elif kind in ("starts", "stops"):
@@ -113,7 +124,7 @@ class Domains(object):
             if lo is None:
                 cand = [v for v, r in dom if not r]
             else:
-                cand = [lo, lo + 1, lo + 2, hi_t]
+                cand = [lo, lo + 1, lo + 2, hi_t] if self.huge else [lo, lo + 1, lo + 2]
             out = []
             for v in cand:
                 if v > hi_t or (hi is not None and v > hi) or (lo is not None and v < lo):
@@ -148,7 +159,7 @@ class Domains(object):
                 return dom
             out = []
             if is_stop:
-                for v in (o, o + 1, o + 2, hi_t):
+                for v in (o, o + 1, o + 2, hi_t) if self.huge else (o, o + 1, o + 2):
                     if o <= v <= hi_t and (v, False) not in out:
                         out.append((v, False))
                 if relax and o - 1 >= 0:
@@ -399,8 +410,9 @@ def case_dict(spec, scalars, st, fill, errored):
     return {"spec": spec["name"], "fill": fill, "args": args}
 
 
-def compare(spec, run, st, call, err, fill):
-    """-> list of (failure, text)"""
+def compare(spec, run, st, call, err, fill, checks=None, scalars=None):
+    """-> list of (failure, text).  checks: {output name: checker} for outputs whose correct value is not unique
+    (model/kernelspec_extra.py)."""
     bad = []
     c_failed = err.str is not None
     if (run.status == "error") != c_failed:
@@ -439,6 +451,12 @@ def compare(spec, run, st, call, err, fill):
             if not written:
                 continue
             got = call.bufs[name].tolist()
+            if checks and name in checks:
+                ins = {n: o.vals for n, o in st.aux.items() if isinstance(o, e2.LazyIn)}
+                text = checks[name](scalars, ins, written, got)
+                if text:
+                    bad.append(("value", text))
+                continue
             for i, v in sorted(written.items()):
                 if not e2.same(a["base"], v, got[i]):
                     bad.append(("value", "%s[%d]: definition %r, compiled kernel %r" % (name, i, v, got[i])))
@@ -467,12 +485,16 @@ def describe(case):
 # ----------------------------------------------------------------------------------------------------------
 
 
-def roots_for(spec, tier, T):
-    """Scalar tuples (eagerly enumerated roots), shrunk until they fit the root cap."""
+def roots_for(spec, tier, T, opts=None):
+    """Scalar tuples (eagerly enumerated roots), shrunk until they fit the root cap.  opts (harness-defined kernels):
+    `scalars` replaces the domain of a scalar, `require` is the calling contract between the scalars, `per_root`
+    orders the tuples by the sum of their length-like members."""
+    opts = opts or {}
     scal = [a for a in spec["args"] if a["depth"] == 0]
     shrink = 0
+    over = opts.get("scalars", {})
     while True:
-        doms = [ks.scalar_domain(a, tier, shrink) for a in scal]
+        doms = [list(over[a["name"]]) if a["name"] in over else ks.scalar_domain(a, tier, shrink) for a in scal]
         n = 1
         for d in doms:
             n *= len(d)
@@ -482,6 +504,12 @@ def roots_for(spec, tier, T):
     roots = [()]
     for d in doms:
         roots = [r + (i,) for r in roots for i in range(len(d))]
+    if opts.get("require"):
+        names = [a["name"] for a in scal]
+        roots = [r for r in roots if opts["require"]({n: d[i] for n, d, i in zip(names, doms, r)})]
+    if opts.get("per_root"):
+        sized = [j for j, a in enumerate(scal) if a["kind"] == "length" and a["name"] not in over]
+        roots.sort(key=lambda r: (sum(doms[j][r[j]] for j in sized), r))
     capped = None
     if len(roots) > T["root_cap"]:
         capped = len(roots)
@@ -672,8 +700,9 @@ class C13(runner.Check):
                          {"spec": spec["name"], "what": "definition"}, kernel=k["name"], spec=spec["name"],
                          failure="definition-not-executable")
             return st.pack()
-        scal, sdoms, roots, shrink, rootcapped = roots_for(spec, tier, T)
-        doms = Domains(spec, tier, k["relax"], inout_outputs(k["definition"], spec))
+        opts = k.get("options") or {}
+        scal, sdoms, roots, shrink, rootcapped = roots_for(spec, tier, T, opts)
+        doms = Domains(spec, tier, k["relax"], inout_outputs(k["definition"], spec), opts)
         lib = klib()
         cfn = lib.fn(spec)
         fills = T["fills"]
@@ -736,12 +765,18 @@ class C13(runner.Check):
                 err = cfn(*call.cargs)
                 st.evaluations += 1
                 st.transitions += 1
-                bad = compare(spec, run, rs, call, err, fill)
+                bad = compare(spec, run, rs, call, err, fill, opts.get("check"), scalars)
                 if bad:
                     case = case_dict(spec, scalars, rs, fill, errored)
+                    extra = {}
+                    if opts.get("facet"):
+                        # which documented peculiarities of the kernel the input exercises: part of the signature,
+                        # so that a known finding is matched only on inputs of its own kind
+                        extra["facet"] = opts["facet"](scalars, {n: o.vals for n, o in rs.aux.items()
+                                                                 if isinstance(o, e2.LazyIn)})
                     for failure, text in bad:
                         st.violation("kernel-mismatch", "%s: %s\n  %s" % (failure, text, describe(case)), case,
-                                     kernel=k["name"], spec=spec["name"], failure=failure)
+                                     kernel=k["name"], spec=spec["name"], failure=failure, **extra)
                     label = "MISMATCH"
             st.outcome(label)
             if label != "MISMATCH" and len(st.samples) < 1 and wrote and st.states % 7 == 3:
@@ -749,7 +784,11 @@ class C13(runner.Check):
             return True
 
         try:
-            runs, counted, levels, exhausted = e2.explore(roots, len(scal), body, T["case_cap"])
+            if opts.get("per_root"):
+                runs, counted, rdone, exhausted = e2.explore_by_root(roots, len(scal), body, T["case_cap"])
+                levels = None
+            else:
+                runs, counted, levels, exhausted = e2.explore(roots, len(scal), body, T["case_cap"])
         except StopIteration:
             return found.get("case")
         pool.unmark()
@@ -770,7 +809,11 @@ class C13(runner.Check):
             st.count("specialisations_exhausted_within_bounds")
         else:
             why = []
-            if not exhausted:
+            if not exhausted and levels is None:
+                why.append("case cap %d (%d candidates run, %d inside the contract): %d of %d scalar tuples (smallest "
+                           "first) exhausted, the others cut at their budget share"
+                           % (T["case_cap"], runs, counted, rdone, len(roots)))
+            elif not exhausted:
                 why.append("case cap %d (%d candidates run, %d inside the contract): all candidates with < %d "
                            "non-default elements done" % (T["case_cap"], runs, counted, levels))
             if rootcapped:
@@ -832,7 +875,8 @@ class C13(runner.Check):
         T = TIERS["thorough"]
         fn = e2.compile_definition(k["name"], k["definition"])
         scalars = {a["name"]: case["args"][a["name"]] for a in spec["args"] if a["depth"] == 0}
-        doms = Domains(spec, "thorough", k["relax"], inout_outputs(k["definition"], spec))
+        opts = k.get("options") or {}
+        doms = Domains(spec, "thorough", k["relax"], inout_outputs(k["definition"], spec), opts)
         preset = {n: v for n, v in case["args"].items() if isinstance(v, dict) and not v.get("out")}
         outs = {n: v for n, v in case["args"].items() if isinstance(v, dict) and v.get("out")}
         args, rs = build_args(spec, scalars, e2.Fixed(), doms, T, preset=preset)
@@ -860,14 +904,14 @@ class C13(runner.Check):
         for a in spec["args"]:
             if a["depth"] == 1 and (a["dir"] == "out" or not a["const"]):
                 lines.append("  observed %s = %s" % (a["name"], call.bufs[a["name"]].tolist()))
-        bad = compare(spec, run, rs, call, err, case["fill"])
+        bad = compare(spec, run, rs, call, err, case["fill"], opts.get("check"), scalars)
         for failure, text in bad:
             lines.append("MISMATCH %s: %s" % (failure, text))
         return bool(bad), "\n".join(lines)
 
     def extra_coverage(self, tier, merged):
         ks_ = self.kernels()
-        cls = {"A": [0, 0], "B": [0, 0], "C": [0, 0]}
+        cls = {"A": [0, 0], "B": [0, 0], "C": [0, 0], "H": [0, 0]}
         for k in ks_:
             cls[k["class"]][0] += 1
             cls[k["class"]][1] += len(k["specializations"])
